@@ -28,6 +28,17 @@ EXIT = next(v for v, d in isa.TABLE.items() if d["kind"] == "exit")
 IDX = ("v", "stack_frame_idx", 64)
 
 
+def _conj(c):
+    out, st = [], [c]
+    while st:
+        x = st.pop()
+        if isinstance(x, tuple) and x and x[0] == "land":
+            st.extend([x[1], x[2]])
+        else:
+            out.append(x)
+    return out
+
+
 def run(rep, tier):
     cx = Ctx(rep, "std")
     F = cx.F
@@ -119,6 +130,41 @@ def run(rep, tier):
     top = [p for p in exitp if p["exit"] and p["exit"][0] == "ok"]
     rep.ob(ra, "exit/top", len(top) == 1 and top[0]["exit"][1] == ("sel", imodel.REG, T.K(64, 0), 64) and T.cmp("eq", 64, idx, T.K(64, 0)) in top[0]["conds"],
            "exit at depth 0 returns r0", expected="idx == 0 -> Ok(r0)", found=[T.show(p["exit"][1]) for p in top])
+
+    # R07.f frame-size bookkeeping at the loop head
+    rf = rep.rule("R07.f", "frame-size bookkeeping at the loop head writes only the current depth's own slot (never a saved frame), from the usage table entry of the current pc", floor=1)
+    MOV = next(v for v, d in isa.TABLE.items() if d["kind"] == "alu" and d.get("op") == "mov" and d.get("src") == "K" and d.get("width") == 64)
+    outs = im.lm.run(MOV, keep=lambda st: True)
+    nwr, bad = 0, []
+    for _v, s in outs:
+        for k, val in s.env.items():
+            val = im.canon(val)
+            chain = []
+            while isinstance(val, tuple) and val and val[0] == "upd":
+                chain.append(val)
+                val = val[1]
+            if not (isinstance(val, tuple) and val and val[0] == "obj" and val[1] == "FRAMES"):
+                continue
+            for u in chain:
+                nwr += 1
+                w = u[3]
+                fld = w[2] if isinstance(w, tuple) and w and w[0] == "updf" else None
+                src = repr(w[3]) if fld else repr(w)
+                guard = any(T.cmp("ult", 64, idx, T.K(64, depth)) in _conj(im.canon(c)) for c in s.conds)
+                if u[2] != idx:
+                    bad.append("slot index %s (expected %s)" % (T.show(u[2]), T.show(idx)))
+                if fld != "stack_usage":
+                    bad.append("field %s written" % fld)
+                if "HashMap" not in src or "get" not in src:
+                    bad.append("value not taken from the usage table")
+                if not guard:
+                    bad.append("write not guarded by idx < %d" % depth)
+        for e in s.effects:
+            e = im.canon(e)
+            if e[0] == "call" and isinstance(e[1], str) and e[1].endswith("HashMap<K, V, S, A>::get") and e[2][1] != ("v", "pc", 64):
+                bad.append("usage table looked up at %s (expected pc)" % T.show(e[2][1]))
+    rep.ob(rf, "loop-head", nwr >= 1 and not bad, "writes to the frame array before the opcode dispatch",
+           expected="stacks[idx].stack_usage := usage_table[pc] under idx < %d" % depth, found=sorted(set(bad)) or "%d guarded writes to slot idx" % nwr)
 
     # R07.d discriminator agreement
     rd = rep.rule("R07.d", "is-a-local-call discriminator (opc == CALL && src == 1) agrees in verifier, interpreter, JIT and stack-usage pass", floor=4)
